@@ -579,14 +579,14 @@ impl Render {
             }
             Cmd::Freeze(n) => self.simple(&["typeset".into(), "-fr".into(), n.to_string()]),
             Cmd::ForPos(b) => {
-                self.out.push_str(*self.rng.pick(&["for v", "for v", "for v in \"$@\""]));
-                if self.out.ends_with('v') && self.rng.chance(1, 2) {
-                    self.out.push('\n');
-                } else if self.out.ends_with('v') {
-                    self.out.push(' ');
-                } else {
-                    self.out.push_str("; ");
-                }
+                self.out.push_str(*self.rng.pick(&[
+                    "for v ",
+                    "for v\n",
+                    "for v; ",
+                    "for v ;\n",
+                    "for v in \"$@\"; ",
+                    "for v\nin \"$@\"\n",
+                ]));
                 self.out.push_str("do");
                 self.opt_nl();
                 self.list_term(b);
@@ -668,7 +668,7 @@ impl Render {
                 self.out.push_str("done");
             }
             Cmd::For(n, b) => {
-                self.out.push_str("for v in");
+                self.out.push_str(*self.rng.pick(&["for v in", "for v in", "for v\nin", "for v \n\n in"]));
                 // words that expand to no field may sit anywhere in the list; the status of a
                 // command substitution among them must not become the loop's status or `$?`
                 for i in 0..*n {
